@@ -105,6 +105,27 @@ func (x *exec) enterLoop(st *pstate, b, pred *ssa.BasicBlock, ord int) {
 	for i, phi := range phis {
 		st.vals.m[phi] = vals[i]
 		if phi.Comment != "" {
+			if phi.Comment == "rangeindex" {
+				// nested range loops: the hidden index of the enclosing range loop stays nameable as `outerindex`
+				var outerH *ssa.BasicBlock
+				for h, body := range x.loopBody {
+					if h == b || !body[b] || st.active[h] == nil {
+						continue
+					}
+					if outerH == nil || len(body) < len(x.loopBody[outerH]) {
+						outerH = h
+					}
+				}
+				if outerH != nil {
+					for _, in := range outerH.Instrs {
+						if op, isPhi := in.(*ssa.Phi); isPhi && op.Comment == "rangeindex" {
+							if ov, ok := st.vals.get(op); ok {
+								st.vars["outerindex"] = tval{ov, op.Type()}
+							}
+						}
+					}
+				}
+			}
 			st.vars[phi.Comment] = tval{vals[i], phi.Type()}
 		}
 	}
@@ -124,6 +145,9 @@ func (x *exec) enterLoop(st *pstate, b, pred *ssa.BasicBlock, ord int) {
 	}
 	// forget what the loop changes
 	x.havocForLoop(st, b)
+	for _, m := range x.localMapsWrittenIn(st, b) {
+		x.havocLocalMap(st, m)
+	}
 	for _, phi := range phis {
 		s := x.p.T.SortOf(phi.Type())
 		nv := x.env.FreshVal("loop$"+phi.Comment, s)
